@@ -1,4 +1,6 @@
 import CfdpVerif.Model.Tracker
+import CfdpVerif.Model.Checksum
+import CfdpVerif.Model.Util
 /-!
 Line-protocol driver of the executable model.  One output line per input line.
 Every component has its own prefix; the Python harness (`harness/`) sends the same lines to the
@@ -37,9 +39,33 @@ def stepTracker (s : St) (args : List String) : St × String :=
     ({ s with trk := t }, "ok " ++ showSegs t)
   | _ => (s, "bad-op")
 
+def showCksErr : Checksum.Err → String
+  | .valueError => "exc ValueError"
+  | .checksumNotImplemented => "exc ChecksumNotImplemented"
+
+/-- checksum ops: `K calc <type> <hex> <size> <seg>` | `K verify <ckshex> <type> <hex> <size> <seg>` -/
+def stepChecksum (args : List String) : String :=
+  match args with
+  | ["calc", t, d, size, seg] =>
+    match t.toNat?, Util.bytesOfHex d, size.toNat?, seg.toNat? with
+    | some t, some d, some size, some seg =>
+      match Checksum.calcChecksum (Checksum.CksType.ofNat t) d size seg with
+      | .ok r => "ok " ++ Util.hexOfBytes r
+      | .error e => showCksErr e
+    | _, _, _, _ => "bad-op"
+  | ["verify", c, t, d, size, seg] =>
+    match Util.bytesOfHex c, t.toNat?, Util.bytesOfHex d, size.toNat?, seg.toNat? with
+    | some c, some t, some d, some size, some seg =>
+      match Checksum.verify c (Checksum.CksType.ofNat t) d size seg with
+      | .ok r => s!"ok {r}"
+      | .error e => showCksErr e
+    | _, _, _, _, _ => "bad-op"
+  | _ => "bad-op"
+
 def step (s : St) (line : String) : St × String :=
   match (line.trimAscii.toString.splitOn " ").filter (· ≠ "") with
   | "T" :: rest => stepTracker s rest
+  | "K" :: rest => (s, stepChecksum rest)
   | [] => (s, "")
   | _ => (s, "bad-op")
 
